@@ -151,6 +151,14 @@ class Layouts:
             inl = self.fn_as_term(c)
             if inl is not None:
                 return inl
+            sz = self.sized_fn(c.path)
+            if sz is not None:
+                # hand-written `let (rest, body) = take(n)(i)?; P(body, ..)`: the same as map_res(take(n), P)
+                amap = {1: CUR}
+                for k, x in enumerate(extra):
+                    amap[k + 2] = x
+                n = self.an.simp(self.an.interp.subst(sz["n"], amap))
+                return ("mapres", ("take", n, sz["mode"]), ("sym", "sized:%s" % c.path))
             return ("struct", self.self_adt(c), c.path, extra)
         return ("fn", c)
 
@@ -178,6 +186,59 @@ class Layouts:
             if val[0] == "call" and val[2] is not None and len(val[3]) == 1 and canon(peel(val[3][0])) == canon(src):
                 return ("map", step["term"], ("constfn", val[2]))
         return None
+
+    def sized_fn(self, path):
+        """A hand-written crate function that delimits a body: it cuts `take(n)` bytes off its input (arg 1), returns
+        the remainder of that take, and every crate parser it applies reads the taken bytes only.
+        -> {n, mode, inner:[callee paths], block} or None."""
+        if not hasattr(self, "_sized"):
+            self._sized = {}
+        if path in self._sized:
+            return self._sized[path]
+        self._sized[path] = None
+        b = self.prog.bodies.get(path)
+        if b is None or b.derived or b.kind == "Closure" or "nom_derive::Parse" in path:
+            return None
+        an = self.an
+        takes = []
+        for blk, t, c in b.calls():
+            if c is None or c.nsyn not in FN_CALL:
+                continue
+            call = peel(an.local(b, t["dest"]["l"])) if t.get("dest") else None
+            if call is None or call[0] != "call":
+                continue
+            st = self.step_of_call(call)
+            if st is not None and st[0][0] == "take" and peel(st[1]) == ("arg", 1):
+                takes.append((blk, call, st[0]))
+        if len(takes) != 1:
+            return None
+        blk, call, term = takes[0]
+        taken = canon(("tfield", ("ok", call), 1))
+        rest = canon(("tfield", ("ok", call), 0))
+        inner = []
+        for blk2, t2, c2 in b.calls():
+            if c2 is None or not c2.local or c2.kind != "Item" or not t2["args"]:
+                continue
+            a0 = t2["args"][0]
+            ty = (b.op_ty(a0) if hasattr(b, "op_ty") else "") or ""
+            e0 = peel(an.op(b, a0))
+            if canon(e0) == taken:
+                inner.append(c2.path)
+            elif find(e0, lambda n: n == ("arg", 1)) or canon(e0) == rest:
+                return None     # a crate parser applied to bytes outside the delimited body
+        if not inner:
+            return None
+        # the success remainder is the take's remainder
+        okv = peel(an.interp._through("ok", an.local(b, 0)))
+        members = okv[1] if okv[0] == "phi" else [okv]
+        for m in members:
+            m = peel(m)
+            if m[0] == "tuple" and len(m[1]) == 2:
+                if canon(peel(m[1][0])) != rest:
+                    return None
+        r = {"n": term[1], "mode": term[2], "inner": inner, "block": blk}
+        self._sized[path] = r
+        return r
 
     def self_adt(self, c):
         b = self.prog.body(c.path)
@@ -356,6 +417,24 @@ def term_s(t, depth=0):
     return "%s" % (t,)
 
 
+def delimiting_node_pred(prog, an):
+    """Call-graph node predicate: a `map_res(take(..), ..)` closure instance, or a hand-written crate function of the
+    same shape (Layouts.sized_fn) — below either, parsers see only the length-delimited body."""
+    lay = Layouts(prog, an)
+    sized = set()
+    for p, b in prog.bodies.items():
+        if b.kind != "Closure" and not b.derived and any(c is not None and c.npath in ("nom::bytes::complete::take", "nom::bytes::streaming::take") for _, _, c in b.calls()):
+            if lay.sized_fn(p) is not None:
+                sized.add(p)
+
+    def pred(nd):
+        if nd["path"] in sized:
+            return True
+        return nd["path"].startswith("nom::combinator::map_res") and nd["kind"] in ("Item", "ClosureOnceShim") and "{closure#" in nd["path"] and any("nom::bytes::complete::take" in a for a in nd["args"])
+    pred.sized = sized
+    return pred
+
+
 PARSER_OF = {
     "v9::FlowSet": "variable_versions::v9::FlowSet::parse_be",
     "ipfix::FlowSet": "variable_versions::ipfix::FlowSet::parse_be",
@@ -429,7 +508,11 @@ def rule_body_lengths(ctx, prog, an, rule):
         if not L["ok"]:
             ctx.ob(rule, path, "layout", False, "cannot recover the parser's cursor chain: %s" % L["why"])
             continue
-        takes = [(i, s) for i, s in enumerate(L["steps"]) if s["term"][0] == "mapres" and s["term"][1][0] == "take"]
+        def unclo(t):
+            while t[0] == "closure":
+                t = t[2]
+            return t
+        takes = [(i, dict(s, term=unclo(s["term"]))) for i, s in enumerate(L["steps"]) if unclo(s["term"])[0] == "mapres" and unclo(s["term"])[1][0] == "take"]
         if len(takes) != 1:
             ctx.ob(rule, path, "single-delimited-body", False, "expected one map_res(take(n), ..) step, found %d: %s" % (len(takes), [term_s(s["term"]) for s in L["steps"]]))
             continue
